@@ -160,7 +160,7 @@ def wl_objects(ctx, rng, i):
     if rnd % 3 != 2:
         # keys that are string prefixes of their siblings, in an order that is not string order; a two-digit index inside
         o["x_headers"] = {"Accept": ["a", "b"], "Accept-Encoding": "gzip", "A": {"q": 1}, "A-1": 0,
-                          "list": [{"k": n} for n in range(11)]}
+                          "list": [{"k": n} for n in range(11)], "matrix": [[1, 0], [{"k": [["z"]]}]]}      # lists nested in lists
     try:
         with warnings.catch_warnings():
             warnings.simplefilter("ignore")
@@ -228,6 +228,16 @@ def wl_objects(ctx, rng, i):
                 ctx.count("new_version_decisions")
                 ctx.nontrivial(ver, t, "new-version:" + label, shape(segs))
                 if res != "refused":
+                    # the library may have given the property a value of its own again (a default): then the selector still addresses something
+                    try:
+                        with warnings.catch_warnings():
+                            warnings.simplefilter("ignore")
+                            nj = json.loads(marked.new_version(**ch).serialize(include_optional_defaults=True))
+                        if pathor.resolve(nj, segs)[0]:
+                            ctx.count("new_version_property_defaulted_again")
+                            continue
+                    except Exception:
+                        pass
                     ctx.violation("selector-addresses-nothing-accepted:after-new-version", "new_version(%s) built a %s %s that keeps selector %r although it now addresses nothing" % (
                         label, ver, t, s), {"version": ver, "selector": s, "change": label, "object": jd})
     # selector *lists*: every member must address something, wherever it stands in the list
